@@ -45,7 +45,7 @@ void harness(void) {
 #endif
   VP_ASSUME(vk_r >= 0 && vk_r < B_NR && vk_w >= 0 && vk_w < (B_NC + 63) / 64);
 #endif
-#ifdef DNULL
+#if defined(DNULL) || defined(H_SET_UI)
   mzd_t *D = NULL;
 #elif ALIAS == 1 || ALIAS == 4
   mzd_t *D = A;
